@@ -45,13 +45,16 @@ class _Ctx:
     stmts: list[Stmt]
     is_ctx_expr: bool
     in_while_cond: bool = False
+    conditional: bool = False
+    """is the expression evaluated only sometimes (a branch of a conditional
+    expression, a later operand of `and` / `or`, a comprehension element)?"""
 
     @staticmethod
     def default():
         return _Ctx(stmts=[], is_ctx_expr=False)
 
 
-def _refuses(e: Call, *, in_while_cond: bool) -> str | None:
+def _refuses(e: Call, *, in_while_cond: bool, conditional: bool = False) -> str | None:
     """Why the call *e* cannot be inlined, or `None` where it can.
 
     Decided from the call and the callee alone, so a listing and the rewrite
@@ -62,6 +65,11 @@ def _refuses(e: Call, *, in_while_cond: bool) -> str | None:
         return (
             f'inlining `{e.fn.name}` here would splice its body before the '
             f'loop, where a `while` condition is evaluated every iteration'
+        )
+    if conditional:
+        return (
+            f'inlining `{e.fn.name}` here would splice its body before the '
+            f'statement, where it runs even when this operand is not evaluated'
         )
     # inlining rewrites the trailing return into an assignment to a temp (see
     # `_replace_ret`): none leaves nothing to rewrite, and several would emit
@@ -127,7 +135,7 @@ class _FuncInline(SiteRewriter):
             return self._keep_call(e, ctx)
 
         # a refusal is not a site, so it takes no index
-        reason = _refuses(e, in_while_cond=ctx.in_while_cond)
+        reason = _refuses(e, in_while_cond=ctx.in_while_cond, conditional=ctx.conditional)
         if reason is not None:
             self.refused.append((e, reason))
             if self._named_by_cursor(e):
@@ -234,6 +242,34 @@ class _FuncInline(SiteRewriter):
         if not Purity.analyze(e.fn.ast):
             self._kept_call = True
         return r
+
+    def _sometimes(self, ctx: _Ctx) -> _Ctx:
+        """The context of an operand that is not evaluated on every run of the
+        statement."""
+        return _Ctx(ctx.stmts, ctx.is_ctx_expr, ctx.in_while_cond, True)
+
+    def _visit_if_expr(self, e: IfExpr, ctx: _Ctx):
+        cond = self._visit_expr(e.cond, ctx)
+        ift = self._visit_expr(e.ift, self._sometimes(ctx))
+        iff = self._visit_expr(e.iff, self._sometimes(ctx))
+        return IfExpr(cond, ift, iff, e.loc)
+
+    def _visit_naryop(self, e: NaryOp, ctx: _Ctx):
+        if isinstance(e, (And, Or)):
+            # short-circuit: only the first operand is always evaluated
+            args = [
+                self._visit_expr(arg, ctx if i == 0 else self._sometimes(ctx))
+                for i, arg in enumerate(e.args)
+            ]
+            return type(e)(args, e.loc)
+        return super()._visit_naryop(e, ctx)
+
+    def _visit_list_comp(self, e: ListComp, ctx: _Ctx):
+        targets = [self._visit_binding(target, ctx) for target in e.targets]
+        iterables = [self._visit_expr(iterable, ctx) for iterable in e.iterables]
+        # evaluated once per element, with the targets bound
+        elt = self._visit_expr(e.elt, self._sometimes(ctx))
+        return ListComp(targets, iterables, elt, e.loc)
 
     def _visit_while(self, stmt: WhileStmt, ctx: _Ctx):
         cond = self._visit_expr(stmt.cond, _Ctx(ctx.stmts, False, in_while_cond=True))
